@@ -167,55 +167,7 @@ func runC14(c *core.Ctx) core.Meta {
 	}
 
 	// ---------------- R14.1 end of program waits for memory ----------------
-	st1 := c.Rule("R14.1", "a wavefront is marked completed by s_endpgm only on paths that found both outstanding memory counters not greater than zero; the completed state is written only by the end-of-program evaluation and the sampled-wavefront completion event", 3)
-	outstanding := func(field string) EdgeCut {
-		return CmpCut(func(_ *core.Node, op token.Token, x, y ssa.Value) int {
-			f := core.LoadedField(x)
-			if f == nil || f.Name() != field {
-				return 0
-			}
-			if z, ok := core.ConstInt(y); !ok || z != 0 {
-				return 0
-			}
-			switch op {
-			case token.GTR, token.NEQ:
-				return -1
-			case token.LEQ, token.EQL:
-				return 1
-			}
-			return 0
-		})
-	}
-	pcu.Instrs(func(fn *ssa.Function, in ssa.Instruction) {
-		if !isStateStore(in, completedV) {
-			return
-		}
-		st1.Instances++
-		c.MarkAnalysed(fn)
-		name := core.FuncName(fn)
-		switch name {
-		case "SchedulerImpl.evalSEndPgm":
-			g := core.BuildGraph(fn, 0, nil)
-			for _, n := range g.Nodes {
-				if n.Instr != in {
-					continue
-				}
-				for _, f := range []string{"OutstandingVectorMemAccess", "OutstandingScalarMemAccess"} {
-					ok := g.Guarded(n, outstanding(f))
-					st1.Ob(ok)
-					st1.Sample("evalSEndPgm: State=WfCompleted guarded by %s <= 0: %v", f, ok)
-					if !ok {
-						c.ReportAt("R14.1", fn, in.Pos(), "completed-with-outstanding:"+f, "the wavefront is marked completed on a path that did not find "+f+" equal to zero: it ends (and its registers are released) while memory operations are in flight")
-					}
-				}
-			}
-		case "ComputeUnit.handleWfCompletionEvent":
-			st1.Ob(true) // sampled wavefronts never issued a memory operation
-		default:
-			st1.Ob(false)
-			c.ReportAt("R14.1", fn, in.Pos(), "completed:writer", "the completed state is set outside the end-of-program evaluation ("+name+")")
-		}
-	})
+	checkEndPgmWaits(c, "R14.1")
 
 	// ---------------- R14.2 wait count compares the right pairs ----------------
 	st2 := c.Rule("R14.2", "s_waitcnt lets the wavefront continue only on paths where outstanding scalar accesses were found not greater than the instruction's LGKM count and outstanding vector accesses not greater than its VM count", 2)
@@ -324,6 +276,53 @@ func runC14(c *core.Ctx) core.Meta {
 		st4.Ob(false)
 		c.ReportAt("R14.4", u.Target.Fn(), u.Target.Instr.Pos(), "passBarrier:guard", "the barrier is released on a path that did not find every wavefront of the group at the barrier")
 	}
+	// R14.10 the emulator stops every wavefront at s_barrier
+	st10 := c.Rule("R14.10", "in the emulator a wavefront that executes s_barrier stops there: in runWfUntilBarrier, from the edge on which the instruction was recognised as s_barrier (Opcode == 10 of the SOPP format), every path stores Wavefront.AtBarrier = true before it returns or decodes the next instruction. The work-group loop alternates the wavefronts of a group at these stops; a wavefront that runs on (a fast path for small groups - a partial 2-D group of at most 64 work-items is still spread over several wavefronts) executes what follows the barrier before the other wavefronts have reached it", 1)
+	if fn := c.MustFunc("R14.10", emuPkg, "ComputeUnit.runWfUntilBarrier"); fn != nil {
+		c.MarkAnalysed(fn)
+		g := core.BuildGraph(fn, 0, nil)
+		isOpc := isLoadOfField("Opcode")
+		for _, n := range g.Nodes {
+			iff, ok := n.Instr.(*ssa.If)
+			if !ok {
+				continue
+			}
+			cmp, ok := iff.Cond.(*ssa.BinOp)
+			if !ok || cmp.Op != token.EQL || !isOpc(core.StripConv(cmp.X)) {
+				continue
+			}
+			if k, isC := core.ConstInt(cmp.Y); !isC || k != 10 {
+				continue
+			}
+			st10.Instances++
+			var leak *core.Node
+			start := []core.State{{N: n.Succs[0]}}
+			okW := g.Walk(start, core.WalkOpts{Stop: func(m *core.Node) bool {
+				sto, ok := storeToField(m.Instr, "Wavefront.AtBarrier")
+				if !ok {
+					return false
+				}
+				k, isC := sto.Val.(*ssa.Const)
+				return isC && k.Value != nil && constant.BoolVal(k.Value)
+			}}, func(x core.State) {
+				if leak != nil {
+					return
+				}
+				if _, isRet := x.N.Instr.(*ssa.Return); isRet {
+					leak = x.N
+				}
+				if x.N == n {
+					leak = x.N
+				}
+			})
+			st10.Ob(okW && leak == nil)
+			st10.Sample("runWfUntilBarrier: after s_barrier is recognised the wavefront is marked AtBarrier on every path: %v", leak == nil)
+			if leak != nil {
+				c.ReportAt("R14.10", fn, iff.Pos(), "emu-barrier-not-stopped", "after recognising s_barrier runWfUntilBarrier can go on to the next instruction (or return) without marking the wavefront AtBarrier: the wavefront runs through the barrier while the other wavefronts of its group have not reached it, and reads what they have not written yet")
+			}
+		}
+	}
+
 	// R14.9 arrival at a barrier does not need room in the barrier buffer
 	st9 := c.Rule("R14.9", "a wavefront that executes s_barrier is recorded as arrived and, if it is the last of its group, releases the group whether or not the barrier buffer has room: in evalSBarrier the store of WfAtBarrier and the call that releases the group (passBarrier) are reachable on the paths on which the capacity test len(barrierBuffer) < barrierBufferSize fails; only parking the wavefront in the buffer may depend on that test. Slots are freed only by releases, so a full buffer of incomplete groups that turns arrivals away never drains", 2)
 	if fn := c.MustFunc("R14.9", cuPkg, "SchedulerImpl.evalSBarrier"); fn != nil {
@@ -1071,5 +1070,77 @@ func checkOutstandingCounters(c *core.Ctx, pcu *PkgInfo, prov *core.Prov, rule s
 			c.ReportAt(rule, fn, fn.Pos(), "last-piece-marking", "the requests of one instruction are not marked so that exactly the last one triggers the decrement")
 		}
 	}
+
+}
+
+// checkEndPgmWaits (R14.1, shared with C02 as R02.14): s_endpgm retires a wavefront only when
+// both of its outstanding-access counters are zero. For C02 the scalar counter matters as much as
+// the vector one: the return of a scalar load writes its data at the wavefront's SGPR offset
+// unconditionally, and the dispatcher reuses that slot for the next work-group.
+func checkEndPgmWaits(c *core.Ctx, rule string) {
+	pcu := NewPkgInfo(c, cuPkg)
+	states := wfStateNames(c)
+	completedV, okC := states["WfCompleted"]
+	if !okC {
+		c.Report(core.Finding{Rule: rule, Kind: "anchor", Pkg: wfPkg, Func: "-", Detail: "WfCompleted", Msg: "wavefront state constants not found"})
+		return
+	}
+	isStateStore := func(in ssa.Instruction, v int64) bool {
+		s, ok := storeToField(in, "Wavefront.State")
+		if !ok {
+			return false
+		}
+		k, isC := core.ConstInt(s.Val)
+		return isC && k == v
+	}
+	st1 := c.Rule(rule, "a wavefront is marked completed by s_endpgm only on paths that found both outstanding memory counters not greater than zero; the completed state is written only by the end-of-program evaluation and the sampled-wavefront completion event", 3)
+	outstanding := func(field string) EdgeCut {
+		return CmpCut(func(_ *core.Node, op token.Token, x, y ssa.Value) int {
+			f := core.LoadedField(x)
+			if f == nil || f.Name() != field {
+				return 0
+			}
+			if z, ok := core.ConstInt(y); !ok || z != 0 {
+				return 0
+			}
+			switch op {
+			case token.GTR, token.NEQ:
+				return -1
+			case token.LEQ, token.EQL:
+				return 1
+			}
+			return 0
+		})
+	}
+	pcu.Instrs(func(fn *ssa.Function, in ssa.Instruction) {
+		if !isStateStore(in, completedV) {
+			return
+		}
+		st1.Instances++
+		c.MarkAnalysed(fn)
+		name := core.FuncName(fn)
+		switch name {
+		case "SchedulerImpl.evalSEndPgm":
+			g := core.BuildGraph(fn, 0, nil)
+			for _, n := range g.Nodes {
+				if n.Instr != in {
+					continue
+				}
+				for _, f := range []string{"OutstandingVectorMemAccess", "OutstandingScalarMemAccess"} {
+					ok := g.Guarded(n, outstanding(f))
+					st1.Ob(ok)
+					st1.Sample("evalSEndPgm: State=WfCompleted guarded by %s <= 0: %v", f, ok)
+					if !ok {
+						c.ReportAt(rule, fn, in.Pos(), "completed-with-outstanding:"+f, "the wavefront is marked completed on a path that did not find "+f+" equal to zero: it ends (and its registers are released) while memory operations are in flight")
+					}
+				}
+			}
+		case "ComputeUnit.handleWfCompletionEvent":
+			st1.Ob(true) // sampled wavefronts never issued a memory operation
+		default:
+			st1.Ob(false)
+			c.ReportAt(rule, fn, in.Pos(), "completed:writer", "the completed state is set outside the end-of-program evaluation ("+name+")")
+		}
+	})
 
 }
